@@ -537,6 +537,9 @@ def _lon_normalisation(run, P):
     c = f"{w.key}:covers-all-lon"
     if {"node_lon", "edge_lon", "face_lon"} <= names and wrap:
         run.holds("F-PATH/lon-wrap", c, where(w), "node_lon, edge_lon, face_lon wrapped by (v+180)%360-180")
+    elif any(isinstance(x, (ast.For, ast.While, ast.Call)) and not (isinstance(x, ast.Call) and isinstance(x.func, ast.Attribute)) for x in ast.walk(w.node)) and not ({"node_lon", "edge_lon", "face_lon"} <= names and not wrap and any(isinstance(x, ast.BinOp) and isinstance(x.op, ast.Mod) for x in ast.walk(w.node))):
+        # names taken from a table the normaliser could not unroll, or the arithmetic done by a helper it could not inline
+        run.incomplete("F-PATH/lon-wrap", c, where(w), f"longitude wrap: names found {sorted(names)}, wrap expression found: {wrap}; the function still contains a loop or a helper call that was not resolved")
     else:
         run.violation("F-PATH/lon-wrap", c, where(w), f"longitude wrap covers {sorted(names)} (wrap expression found: {wrap}); every *_lon variable must be wrapped to [-180,180]")
     # ... on EVERY path: a normally ending path must, for each of the three variables, either have found it absent, have found it within range, or have rewritten it.
